@@ -44,6 +44,10 @@ def instances(tier):
     for t in ("Affine", "Translation", "UniformScale", "HomogeneousW"):
         for dt in ("int32", "int16", "float32"):
             out.append(("apply_dtype", {"t": t, "n": 2, "dtype": dt}))
+        out.append(("apply_dtype", {"t": t, "n": 2, "dtype": "int64", "batched": True}))
+    for cls in ("PointCloud", "TriMesh", "LabelledPointUndirectedGraph"):
+        for t in ("Affine", "Similarity", "Chain", "HomogeneousP"):
+            out.append(("apply_batched", {"cls": cls, "t": t, "n": 2}))
     return out
 
 
@@ -137,10 +141,27 @@ def apply_dtype(F, ob, cfg):
     for (pd, ld) in ((cfg["dtype"], "float64"), ("float64", cfg["dtype"])):
         s = PointCloud(P.astype(pd))
         s.landmarks["g"] = PointCloud(L.astype(ld))
-        r = t.apply(s)
+        r = t.apply(s, batch_size=F.choice("batch", [1, 2, 3])) if cfg.get("batched") else t.apply(s)
         tag = "%s/%s" % (pd, ld)
         tol = 1e-5 if "float32" in (pd, ld) else None
         ob.eq(tag + ".points", r.points, _transform(F, cfg).apply(P.astype(float)), tol=tol)
         ob.eq(tag + ".landmarks", r.landmarks["g"].points, _transform(F, cfg).apply(L.astype(float)), tol=tol)
         ob.true(tag + ".input.dtype_kept", s.points.dtype == np.dtype(pd) and s.landmarks["g"].points.dtype == np.dtype(ld))
         ob.true(tag + ".input.values_kept", bool(np.array_equal(s.points, P.astype(pd))))
+
+
+def apply_batched(F, ob, cfg):
+    """apply(shape, batch_size=b): points and every landmark group are still moved by the same map as without batching"""
+    s = K.mk_shape(F, cfg["cls"], "p", cfg["n"], npts=4, landmarks=2)
+    t = _transform(F, cfg)
+    if cfg["t"] == "TPS":
+        for P in _all_points(s):
+            for p in P:
+                for c in TPS_SRC:
+                    F.assume((p[0] - c[0]) * (p[0] - c[0]) + (p[1] - c[1]) * (p[1] - c[1]) >= 0.01)
+    d_s = K.freeze(K.digest(s))
+    b = F.choice("batch", [1, 2, 3, 7])
+    r = t.apply(s, batch_size=b)
+    ref = _transform(F, cfg).apply(s)
+    K.eq_digest(F, ob, "batched=unbatched", K.digest(r), K.digest(ref))
+    K.eq_digest(F, ob, "input_shape.unchanged", K.digest(s), d_s)
